@@ -8,7 +8,7 @@ from ..excflow import ExcFlow
 from ..loopflow import count_in_path, first_index
 from ..model import AnalysisError, FuncInfo, Program, dotted, own_nodes, unparse
 from ..symex import atoms_of, facts_for, phi_alternatives
-from .common import leaf_stores, U, bind_args, const_value, is_self_attr, kwarg, np_call, returns_of, short
+from .common import control_result_args, leaf_stores, U, bind_args, const_value, is_self_attr, kwarg, np_call, returns_of, short
 from .solveloop import is_method_call, solve_loop
 from . import c07, c08
 
@@ -214,9 +214,7 @@ def exact_gate(prog: Program, rep) -> None:
     scr = prog.func("pygradflow.step.step_control.StepControlResult.__init__")
     n = 0
     for r in returns_of(step):
-        if not (isinstance(r.value, ast.Call) and dotted(r.value.func) == "StepControlResult"):
-            continue
-        b = bind_args(scr, r.value)
+        b = control_result_args(prog, r.value)
         if b is None or not (isinstance(b["accepted"], ast.Constant) and b["accepted"].value is True):
             if b is not None and not isinstance(b["accepted"], ast.Constant):
                 rep.fail("exact-acceptance-gate", step.qualname, short(r), "VIOLATED: exact controller decides acceptance by something other than the literal gate", step.loc(r))
